@@ -191,6 +191,11 @@ def topo_order(proj):
     return order
 
 
+def bkw(big):
+    """big None = the keyword is not passed at all (the documented default is little-endian)."""
+    return {} if big is None else {'big_endian': big}
+
+
 def le(labels, big):
     """labels as returned/passed under `big_endian` -> little-endian list."""
     return list(reversed(labels)) if big else list(labels)
